@@ -175,9 +175,12 @@ impl Snapshot {
 		// reader holds `immutable_memtables` and waits for `level_manifest`, the
 		// background task holds `level_manifest` and waits for `immutable_memtables`.
 		let active = guardian::ArcRwLockReadGuardian::take(Arc::clone(&core.active_memtable))?;
+		verif_yield!("lk.iter.active");
 		let manifest = guardian::ArcRwLockReadGuardian::take(Arc::clone(&core.level_manifest))?;
+		verif_yield!("lk.iter.manifest");
 		let immutable =
 			guardian::ArcRwLockReadGuardian::take(Arc::clone(&core.immutable_memtables))?;
+		verif_yield!("lk.iter.immutable");
 
 		Ok(IterState {
 			active: active.clone(),
